@@ -111,14 +111,28 @@ theorem start_data_label_refused (st : St) (l : PLabel) (h : st.labels.lookup "s
   · exact ⟨_, rfl⟩
   · simp [h, hd]
 
-theorem undefined_label_refused (st : St) (pos : Nat) (n : String)
-    (hm : (pos, n) ∈ sortUndefined st.undefined) (hn : st.labels.lookup n = none) : ∃ r, preflight st = .error r := by
-  unfold preflight
-  cases hf : (sortUndefined st.undefined).find? (fun x => (st.labels.lookup x.2).isNone) with
-  | some p => exact ⟨_, rfl⟩
+theorem firstUndefined_some (st : St) (pos : Nat) (n : String)
+    (hm : (pos, n) ∈ st.undefined) (hn : st.labels.lookup n = none) : (firstUndefined st).isSome = true := by
+  have hb : (pos, n) ∈ stillUndefined st := by simp [stillUndefined, hm, hn]
+  unfold firstUndefined
+  cases hmin : ((stillUndefined st).map (·.1)).min? with
   | none =>
-    have := List.find?_eq_none.mp hf (pos, n) hm
-    simp [hn] at this
+    have := List.min?_eq_none_iff.mp hmin
+    simp at this; rw [this] at hb; simp at hb
+  | some p =>
+    have hp := List.min?_mem hmin
+    obtain ⟨e, he, hfe⟩ := List.mem_map.mp hp
+    simp only
+    rw [List.find?_isSome]
+    exact ⟨e, he, by simp [hfe]⟩
+
+theorem undefined_label_refused (st : St) (pos : Nat) (n : String)
+    (hm : (pos, n) ∈ st.undefined) (hn : st.labels.lookup n = none) : ∃ r, preflight st = .error r := by
+  have := firstUndefined_some st pos n hm hn
+  unfold preflight
+  cases hf : firstUndefined st with
+  | some p => exact ⟨_, rfl⟩
+  | none => rw [hf] at this; simp at this
 
 /-- a successful pre-flight check returns the index bound to the CODE label `start` -/
 theorem preflight_ok (st : St) (i : Nat) (h : preflight st = .ok i) :
